@@ -48,7 +48,7 @@ package dns
 
 // the identity "hash" of Ed25519 (RFC 8080: the message itself is signed) keeps every octet written to it
 //@ func (identityHash).Write [C10 C18]
-//@   callsite "Write" whole: ref(arg1) == ref(b) && sliceoff(arg1) == sliceoff(b) && len(arg1) == len(b)
+//@   callsite "Write" whole: ref(arg1) == old(ref(b)) && sliceoff(arg1) == old(sliceoff(b)) && len(arg1) == old(len(b))
 
 // RFC 6605 / BIND private-key format: the ECDSA private scalar is exported with the full width of its curve (32 or 48
 // octets, leading zeros kept), which is what readers of the format expect
